@@ -8,6 +8,9 @@
 #include <stdio.h>
 #include <stdlib.h>
 #include <unistd.h>
+#include <signal.h>
+#include <string.h>
+#include <sys/socket.h>
 #include <string>
 using namespace asl;
 static std::string unhex(const char* h) { std::string r; if (h[0] == '-') return r; for (size_t i = 0; h[i] && h[i + 1]; i += 2) { char b[3] = { h[i], h[i + 1], 0 }; r.push_back((char)strtoul(b, 0, 16)); } return r; }
@@ -45,6 +48,15 @@ int main(int argc, char** argv)
 		s.write(*req, req.length());
 		s.waitInput(3); String line = s.readLine();
 		printf("OK %s\n", *line); fflush(stdout); _exit(0);
+	}
+	if (cmd == "stream") {           // stream <hex of the bytes the peer sends before closing>: reading the request must terminate promptly
+		int fd[2]; if (socketpair(AF_UNIX, SOCK_STREAM, 0, fd) != 0) { printf("socketpair failed\n"); return 0; }
+		if (t.size() && write(fd[0], t.data(), t.size()) != (ssize_t)t.size()) { printf("write failed\n"); return 0; }
+		close(fd[0]);
+		signal(SIGALRM, [](int) { const char* m = "REPRODUCED reading the request did not terminate within 5 s after the peer closed\n"; if (write(1, m, strlen(m))) {} _exit(1); });
+		Socket sock(fd[1]); alarm(5);
+		HttpRequest req(sock);
+		alarm(0); printf("OK method=%s body=%d bytes\n", *req.method(), req.body().length()); return 0;
 	}
 	return 2;
 }
